@@ -107,7 +107,29 @@ var ruleAddenda9 = map[string]string{
 	"C19": "s.idiom with wsjson.Write / wsjson.Read and per-call contexts; part accepted: JSON documents already buffered in the hijacked reader, read through wsjson.Read.",
 }
 
+var ruleAddenda10 = map[string]string{
+	"C01": "s.idiom duplex-split3: both endpoints write and read at once and every transport write is delivered in two pieces (a frame header arrives in two transport reads while the endpoint's own writer runs).",
+	"C02": "WC-cancel0-huge: a compressed Write of 140000 sparse-noise bytes (two deflate blocks, frames emitted before the call ends) whose context is cancelled between two of its frames, then a small message that goes out uncompressed.",
+	"C03": "s.pools: the read-side three-party history (A closed in the middle of a compressed message, B opened meanwhile, B's message arriving in two halves) judged on the bystander: B's valid stream yields B's message.",
+	"C05": "Part fault (seqx): the transport-write faults of C02 judged by C05's clauses (frames atomic, received messages are written messages).",
+	"C06": "s.xconn: Close(4001, \"bye\") on a fresh connection while another connection is being closed; simultaneous close with another goroutine's data frame stuck in the transport: the Close frame carries exactly the local code and reason or exactly the peer's.",
+	"C07": "prog-kept: slices returned by Conn.Read, also together with an error (transport cut mid-message), are looked at again after reads on other connections; conc-*-blate: the bystander's message arrives in two halves.",
+	"C08": "Lying frame headers (2^28, 2^40 declared bytes) met by the close handshake (Close, CloseRead) instead of a reader; s.slowpeer: an over-limit message has been received, the peer accepts nothing until 1 s, the reader's context ends at 500 ms (or not): the 1009 Close frame still goes out.",
+	"C09": "Adversaries pingNoRead (a Ping right after the connection's Close frame from a peer that stops reading) and latePing (header and half the payload of a Ping 4.9 s into the wait); rule: once the Close frame is on the wire Close returns within about 5 s.",
+	"C10": "s.closer: Close called by another goroutine queues behind a Read/Write blocked on a silent peer; the blocked call's own context, cancelled at 1 s, still ends it promptly.",
+	"C11": "A same-host Origin header on every other request of the grammar; the key under the RFC spelling of the field name in a hand-built header map (refusal tolerated, a 101 must hash that key).",
+	"C12": "Absolute-form request targets (the request URL has a host of its own) with every origin form; long userinfo that puts byte offsets 256/512/1024/4096 of the header value right behind a look-alike prefix of the host.",
+	"C14": "W3r: two writers with the same content on connections whose writing side promised to reset its compressor.",
+	"C17": "Part amd64v3: the sweep in a worker built with GOAMD64=v3.",
+	"C18": "s.idiom through the net.Conn adapter (also duplex with split deliveries); far-future deadlines (year 3000).",
+	"C19": "Part afterfail: a wsjson.Read that failed mid-message (transport end, transport error, read limit, invalid JSON), then a wsjson.Read on another connection; wconc-json3: three concurrent wsjson.Write calls on compressed connections.",
+	"C20": "cr/streaming-peer (the peer never sends its Close frame and keeps sending a frame every 4 s for 24 s) and cr/writer-closed-twice (a message writer closed twice earlier in the connection's life).",
+}
+
 func init() {
+	for id, add := range ruleAddenda10 {
+		ruleAddenda9[id] += " " + add
+	}
 	for id, add := range ruleAddenda9 {
 		ruleAddenda8[id] += " " + add
 	}
